@@ -661,6 +661,21 @@ def _fractional_expr(node, names):
     return False
 
 
+def final_attr_value(p, e):
+    """What the attribute stored by event `e` holds at the end of path `p`: the stored value, with the in-place updates made
+    through the attribute afterwards (`self._mask = m; self._mask[self._mask != 0] = 1`)."""
+    v = e.data.get('value')
+    try:
+        key = nf.attr(e.target, e.data.get('attr')).single_atom()
+    except Exception:
+        return v
+    hv = getattr(p.state, 'heap', {}).get(key)
+    root = hv
+    while isinstance(root, Poly) and root.single_atom() is not None and is_app(root.single_atom(), 'setitem'):
+        root = root.single_atom()[2][0]
+    return hv if (hv is not None and v is not None and root == v and hv != v) else v
+
+
 class Remap:
     """Route the obligations of a shared rule into another property's clause
     (obligations of clauses that are not mapped are dropped)."""
